@@ -119,7 +119,7 @@ def register(reg):
         "with serial evaluation, one objective call per design and one row per design equal to its final data. Two tasks without "
         "store are explored without bound; others to the bound stated in the evidence.",
         "joblib is modelled by an executor with its contract incl. timeout and require (cross-checked by a free-running pass through "
-        "real joblib); two workers only; below line granularity only where the harness puts a scheduling point (numpy calls of "
+        "real joblib); two workers in depth, three / four workers with <=1 pre-emption; below line granularity only where the harness puts a scheduling point (numpy calls of "
         "artap.individual, serialisation of custom data).",
         "DESIGN.md section 5 C07, section 3.4")
     reg("C14", "ENUM", "exploration",
